@@ -6,7 +6,8 @@ Everything is a pure function of the RandomState handed in, so a case spec
 import numpy as np
 
 VARIANTS = ['plain', 'unbalanced', 'offset', 'small_scale', 'large_scale',
-            'illcond', 'dyadic', 'int', 'separated', 'coplanar', 'illcond5']
+            'illcond', 'dyadic', 'int', 'separated', 'coplanar', 'illcond5',
+            'coarse', 'factorial']
 
 
 def random_orthogonal(rng, d):
@@ -72,6 +73,24 @@ def well_formed(rng, d=None, n_classes=None, variant='plain', dmax=8,
   elif variant == 'int':
     X = np.round(X * 8)
     X = _distinct_rows(rng, X, step=1.0)
+  elif variant == 'coarse':
+    # a coarse integer grid (designed experiments, counts): sample
+    # covariances between features are often *exactly* zero
+    X = np.round(X)
+    X = _distinct_rows(rng, X, step=1.0)
+  if variant == 'factorial':
+    # a designed experiment: two factors on a full g x g grid (their sample
+    # covariance is *exactly* zero), the other features correlated with them
+    g = 4 if d <= 3 else 5
+    a, b = np.meshgrid(np.arange(g, dtype=float), np.arange(g, dtype=float))
+    X = np.zeros((g * g, d))
+    X[:, 0], X[:, 1] = a.ravel(), b.ravel()
+    for k_ in range(2, d):
+      X[:, k_] = X[:, k_ % 2] * (k_ - 1) + rng.randint(-2, 3, size=g * g) + \
+          0.5 * (k_ % 2)
+    n = g * g
+    c = 2
+    y = (X[:, 0] + X[:, 1] + rng.randint(0, 2, size=n) > g - 1).astype(int)
   perm = rng.permutation(n)
   X, y = X[perm], y[perm]
   if variant == 'int':
